@@ -256,6 +256,15 @@ def run(chk):
                     evs.insert(1, big)
                     files.append(evs)
                 chk.count("oversize_events_multibyte", 3)
+            if s == 2:
+                # two plain events per file whose rendered sizes add up to the cap, a few bytes below and above it, in steps of 32 bytes
+                # (the fixed part of a document and of an event is not assumed: the sweep is wide enough to cross the cap)
+                files = []
+                plain = {"EventLevel": "Info", "Version": "1.0.30", "TaskName": "proxy_server", "EventPid": "123", "EventTid": "7",
+                         "OperationId": "op", "TimeStamp": "2026-09-26T23:00:00.123Z"}
+                for d in range(2600, 3700, 24):
+                    files.append([dict(plain, Message="a" * 32000), dict(plain, Message="b" * (CAP - 32000 - d))])
+                chk.count("files_sized_around_the_cap", len(files))
             giveup = chk.tier != "quick" and s == 7
             if slow:
                 plan = [500]              # one failed upload: retried after 15 s
@@ -305,6 +314,11 @@ def run(chk):
                 nb = int(t[0])
                 want_batches += [unhx(x) for x in t[1:1 + nb]]
                 dropped += int(t[-1])
+            if ex["set"] == 2:
+                sizes = sorted(len(b) for b in want_batches)
+                chk.coverage["cap_sweep_model_batch_sizes_closest_to_the_cap"] = [x for x in sizes if CAP - 200 <= x < CAP][-6:]
+                chk.coverage["cap_sweep_model_batch_sizes_sample"] = sizes[:4] + sizes[-4:]
+                chk.count("cap_sweep_files_sent_as_one_batch", sum(1 for x in sizes if x > 60000))
             # what the answers planned for this set let through: a batch is posted until it is accepted, five times at most
             answers = list(ex["plan"])
             delivered, given_up = [], []
